@@ -475,6 +475,7 @@ Step ==
        [] ev.e = "Decode" -> DoDecode(ev)
        [] ev.e = "Panic" -> DoPanic(ev)
        [] ev.e = "Refs" -> DoRefs(ev)
+       [] ev.e = "Note" -> Stay /\ Report(<<>>)   \* a remark of the driver (counted in the evidence), no verdict
 
 TraceInit == Init /\ l = 1 /\ bad = <<>>
 TraceSpec == TraceInit /\ [][Step]_tvars
